@@ -113,6 +113,8 @@ def run(ctx):
                 ctx.violation("oracle", c.replay_obj(di), "valid document %s decoded with loss: %s (re-marshalled: %s)" % (json.dumps(d["doc"])[:300], pb, o["out"][:300]))
                 nv += 1
                 break
+    from vlib import regress
+    regress.search(ctx, {"C02"})          # the shape-agnostic search step (DESIGN.md 12.8)
     replay_findings(ctx)
     ctx.cov["rule"] = ("numeric systematic schemas (incl. fractional bounds on integers in the exact quadrant) and random in-guard schemas over every kind (constrained strings, integers, numbers, booleans, enums, formats, arrays to depth 3, nested objects, maps, "
                        "references, untyped, typed additionalProperties) x every position; per schema 3-5 documents built from the schema (boundary values of every constraint, "
